@@ -406,6 +406,10 @@ pub struct PersistState {
 	pub images: Vec<(ChannelId, u64, Vec<u8>, bool)>,
 	/// keep the serialized images (costly); off for profiles that do not restart
 	pub keep_images: bool,
+	/// in asynchronous mode also answer InProgress to chain-sync persists (no update provided). The contract
+	/// needs no completion call for those, so such a write is simply not durable until a later completed write
+	/// of the channel replaces it. Off unless a check switches it on.
+	pub async_chain_sync: bool,
 	/// latest image per channel that is *durable* (persist returned Completed, or was completed later)
 	pub durable: BTreeMap<ChannelId, (u64, Vec<u8>)>,
 	/// latest image per channel handed to the persister at all
@@ -464,16 +468,17 @@ impl Persist<TestChannelSigner> for RecPersister {
 		let mut st = self.state.lock().unwrap();
 		// chain-sync persists (no update) are answered Completed: the documented contract only requires a
 		// completion call when an update is provided.
-		let in_progress = update.is_some() && self.is_async(&st, &chan);
+		let in_progress = (update.is_some() || st.async_chain_sync) && self.is_async(&st, &chan);
 		let bytes = monitor.encode();
 		st.latest.insert(chan, (latest, bytes.clone()));
 		if st.keep_images {
 			st.images.push((chan, latest, bytes.clone(), update.is_none()));
 		}
 		if in_progress {
-			let id = update.unwrap().update_id;
-			st.pending.entry(chan).or_default().push(id);
-			st.inflight_images.insert((chan, id), bytes);
+			if let Some(u) = update {
+				st.pending.entry(chan).or_default().push(u.update_id);
+				st.inflight_images.insert((chan, u.update_id), bytes);
+			}
 		} else {
 			// a Completed write of the full monitor makes everything up to `latest` durable only if no
 			// earlier update of this channel is still in flight (the contract forbids Completed while
